@@ -175,9 +175,9 @@ def build_property(prop, tier):
     vo = os.path.join(COQ, "Properties", prop + ".vo")
     if os.path.exists(vo):
         os.remove(vo)
-    cmd = "timeout 1500 make -j16 Properties/%s.vo" % prop
+    cmd = "flock %s timeout 1500 make -j16 Properties/%s.vo" % (os.path.join(BUILD, "coqmake.lock"), prop)
     res["checker_cmd"] = "cd coq && coq_makefile -f _CoqProject -o Makefile && " + cmd
-    rc, out, dt = sh(cmd, cwd=COQ, timeout=1600)
+    rc, out, dt = sh(cmd, cwd=COQ, timeout=3000)
     res["wall_s"] = round(dt, 1)
     res["log_tail"] = out[-1500:]
     closure = dep_closure(pfile)
@@ -237,7 +237,7 @@ def build_model(engine):
     # dependencies: theories closure
     deps = dep_closure(src)
     targets = " ".join(os.path.relpath(f, COQ)[:-2] + ".vo" for f in deps if f != src)
-    rc, out, _ = sh("timeout 1500 make -j16 %s" % targets, cwd=COQ, timeout=1600)
+    rc, out, _ = sh("flock %s timeout 1500 make -j16 %s" % (os.path.join(BUILD, "coqmake.lock"), targets), cwd=COQ, timeout=3000)
     if rc != 0:
         return False, "model does not compile: " + out[-800:]
     stamp = os.path.join(out_dir, "stamp")
